@@ -255,8 +255,8 @@ PROPS["C17"] = {
         ("c17_dsu_query_inductive_n8", dict(unit="DisjointSetUnion::{in_same_set,root} (path compression)", inst="usize", bounds="ONE query from an ARBITRARY valid state on 8 elements (rank-increasing forest with subtree size >= 2^rank: the union-by-rank invariant); 8 is the smallest size with a depth-3 tree", oracle="in_same_set(x,y) <=> same true root; compression keeps every root", timeout=1800, mem_gb=20)),
         ("c17_dsu_union_inductive_n6", dict(unit="DisjointSetUnion::union", inst="usize", bounds="ONE union from an arbitrary valid state on 6 elements (ranks <= 2: a rank-2 set of four and a rank-1 set of two fit)", oracle="merges exactly the two components; preserves the invariant", timeout=2400, mem_gb=24)),
         ("c17_dsu_union_inductive_n8", dict(tier="thorough", unit="DisjointSetUnion::union", inst="usize", bounds="ONE union from an arbitrary valid state on 8 elements", oracle="merges exactly the two components; preserves the invariant (=> histories of any length, by induction)", timeout=9000, mem_gb=24)),
-        ("c17_dsu_n5_u4", dict(unit="DisjointSetUnion::{new,union,in_same_set,root}", inst="usize", bounds="5 elements, any 4 unions from the initial state, any query", oracle="in_same_set <=> connected by the unions made", timeout=1800, mem_gb=20)),
-        ("c17_kruskal_n4_a", dict(unit="clique_graph::kruskal (findnz, sortperm_rev, permute, DisjointSetUnion)", inst="isize weights", bounds="4 cliques; edge sets {K4, 4-cycle, path}; symbolic weights 0..5", oracle="edges marked -1 form an acyclic spanning forest connecting exactly the graph's components; others untouched", timeout=1800, mem_gb=20)),
+        ("c17_dsu_n5_u4", dict(tier="thorough", unit="DisjointSetUnion::{new,union,in_same_set,root}", inst="usize", bounds="5 elements, any 4 unions from the initial state, any query", oracle="in_same_set <=> connected by the unions made", timeout=1800, mem_gb=20)),
+        ("c17_kruskal_n4_a", dict(tier="thorough", unit="clique_graph::kruskal (findnz, sortperm_rev, permute, DisjointSetUnion)", inst="isize weights", bounds="4 cliques; edge sets {K4, 4-cycle, path}; symbolic weights 0..5", oracle="edges marked -1 form an acyclic spanning forest connecting exactly the graph's components; others untouched", timeout=1800, mem_gb=20)),
         ("c17_kruskal_n4_b", dict(tier="thorough", unit="same", inst="isize", bounds="4 cliques; edge sets {star, triangle+isolated, two disjoint edges, single edge}", oracle="same", timeout=3000, mem_gb=24)),
         ("c17_sparsity_mask", dict(unit="chordal_info::find_aggregate_sparsity_mask", inst="f64", bounds="A 4x2 nnz=3 symbolic, b in {-1,0,1}^4", oracle="row active <=> structural entry in A or nonzero b")),
         ("c17_connect_graph_n3", dict(unit="chordal_info::connect_graph (CscMatrix::set_entry)", inst="f64", bounds="all 8 strictly-lower patterns of a 3x3 L", oracle="afterwards every column but the last has an entry below the diagonal; only additions; canonical", timeout=1500)),
@@ -366,6 +366,8 @@ PROPS["C13"] = {
         ("c13_soc3_hs_block_p7", dict(unit="SecondOrderCone::get_Hs (dense packed block)", inst="GF(7)", bounds="dim 3", oracle="unpacked packed-triu block == mul_Hs", timeout=1500)),
         ("c13_soc3_hs_block", dict(tier="thorough", unit="same", inst="GF(17)", bounds="dim 3", oracle="same", timeout=3600)),
         ("c13_soc3_update_scaling", dict(unit="SecondOrderCone::update_scaling", inst="GF(13)", bounds="dim 3, all s,z with square nonzero residuals", oracle="w normalised; eta^4 = res(s)/res(z)", timeout=2400, mem_gb=20)),
+        ("c13_soc5_update_scaling_sparse_p17", dict(unit="SecondOrderCone::update_scaling incl. sparse_data (u,v,d), get_Hs, mul_Hs", inst="GF(17)", bounds="dim 5 (two symbolic tail entries, the others zero)", oracle="as _p7", timeout=3000, mem_gb=24)),
+        ("c13_soc5_update_scaling_sparse_p19", dict(tier="thorough", unit="same", inst="GF(19)", bounds="same", oracle="same", timeout=7200, mem_gb=24)),
         ("c13_soc5_update_scaling_sparse_p7", dict(unit="SecondOrderCone::update_scaling incl. sparse_data (u,v,d), get_Hs, mul_Hs", inst="GF(7) (over GF(13) the nested roots of the sparse path never all exist - the harness is vacuous there, reported by the cover guard; GF(31) did not finish in an hour)", bounds="dim 5 (two symbolic tail entries, the others zero)", oracle="w normalised; eta^4 = res(s)/res(z); eta^2(D+uu'-vv') == mul_Hs; D block = eta^2 diag(d,1,..)", timeout=2400, mem_gb=24)),
         ("c13_soc3_jordan_p7", dict(unit="SecondOrderCone::circ_op/inv_circ_op/affine_ds/combined_ds_shift (_combined_ds_shift_symmetric)", inst="GF(7)", bounds="dim 3", oracle="arrow product; inverse; lambda o lambda; W^-1 ds o W dz - sigma mu e", timeout=1800)),
         ("c13_soc3_jordan", dict(tier="thorough", unit="SecondOrderCone::circ_op/inv_circ_op/affine_ds/combined_ds_shift (_combined_ds_shift_symmetric)", inst="GF(13)", bounds="dim 3", oracle="arrow product; inverse; lambda o lambda; W^-1 ds o W dz - sigma mu e", timeout=3600)),
